@@ -429,6 +429,57 @@ func genC08(r *fw.Rng, tier string, emit func(fw.Case)) {
 			}
 		}
 	}
+	// every item id 0..255 (standard, reserved, vendor) BETWEEN two standard items: an id must not end or redirect the walk
+	for id := 0; id < 256; id++ {
+		for rep := 0; rep < 2; rep++ {
+			var c []byte
+			if ls, ok := stdLens[id]; ok {
+				c = r.Bytes(ls[r.Intn(len(ls))])
+			} else {
+				c = r.Bytes(r.Intn(10))
+			}
+			items := []stdItem{{0x01, r.Bytes(4)}, {id, c}, {0x30, r.Bytes(1)}, {0x31, r.Bytes(1)}}
+			if rep == 1 {
+				items = []stdItem{{id, c}, {0x02, r.Bytes(2)}}
+			}
+			emit(fw.Case{Op: "loc", Args: []string{"0200", fw.Hex(append(append([]byte{}, base...), itemsBytes(items)...))}})
+		}
+	}
+	// well-known 16-bit marker values (file signatures, start codes, extremes, framing bytes) at the first offsets of the
+	// location block and of the payload, for every media type / format of 0x0801 and at the head of 0x0200 / 0x0704 items:
+	// the layout is fixed, no byte pattern may switch the decoder to another reading
+	dict := [][]byte{{0xFF, 0xD8}, {0xFF, 0xD9}, {0x89, 0x50}, {0x47, 0x49}, {0x42, 0x4D}, {0x52, 0x49}, {0x49, 0x44}, {0xFF, 0xF1}, {0xFF, 0xFB}, {0x00, 0x00, 0x00, 0x01},
+		{0x00, 0x00, 0x01}, {0x1A, 0x45}, {0x66, 0x74}, {0x00, 0x00}, {0xFF, 0xFF}, {0x7E, 0x7E}, {0x7D, 0x02}, {0x80, 0x00}, {0x30, 0x31}}
+	offs := []int{8, 9, 10, 12, 36}
+	if tier == "thorough" {
+		offs = nil
+		for o := 0; o <= 38; o++ {
+			offs = append(offs, o)
+		}
+	}
+	for mt := 0; mt < 3; mt++ {
+		for mf := 0; mf < 5; mf++ {
+			for _, d := range dict {
+				for _, o := range offs {
+					b := r.Bytes(4)
+					b = append(b, byte(mt), byte(mf), byte(r.Intn(8)), byte(1+r.Intn(4)))
+					b = append(b, randStdLoc(r).bytes()...)
+					b = append(b, r.Bytes(6+r.Intn(10))...)
+					copy(b[o:], d)
+					emit(fw.Case{Op: "loc", Args: []string{"0801", fw.Hex(b)}})
+				}
+			}
+		}
+	}
+	for _, d := range dict {
+		for o := 0; o <= 4; o++ {
+			l := randStdLoc(r).bytes()
+			copy(l[o:], d)
+			x := append(append([]byte{}, l...), itemsBytes([]stdItem{{0x01, r.Bytes(4)}})...)
+			emit(fw.Case{Op: "loc", Args: []string{"0200", fw.Hex(x)}})
+			emit(fw.Case{Op: "loc", Args: []string{"0704", fw.Hex(append([]byte{0, 1, 0, byte(len(x) >> 8), byte(len(x))}, x...))}})
+		}
+	}
 	// all single bits and all pairs of bits of the alarm and the status word
 	for a := 0; a < 32; a++ {
 		for b := a; b < 32; b++ {
